@@ -34,6 +34,7 @@ fn families(t: Tier) -> Vec<(&'static str, u64)> {
         ("dag-exact", t.n(10_000, 900_000)),
         ("dag-smooth", t.n(6_000, 600_000)),
         ("readme", t.n(800, 30_000)),
+        ("conv-graphs", t.n(800, 40_000)),
         ("chain", t.n(120, 3_000)),
         ("fanin", t.n(300, 10_000)),
         ("dag-toggles", t.n(6_000, 600_000)),
